@@ -153,6 +153,14 @@ class SigmaCollection:
             ):  # Included rules are already parsed, skip collection action processing
                 parsed_rules.append(rule)
                 rule.source = source
+            elif not isinstance(rule, dict):  # e.g. an empty or scalar document in a YAML stream
+                exception = SigmaCollectionError(
+                    f"Document { i } of Sigma collection must be a map", source=source
+                )
+                if collect_errors:
+                    errors.append(exception)
+                else:
+                    raise exception
             else:
                 action = rule.get("action")
                 if action is None:  # no action defined
@@ -372,7 +380,7 @@ class SigmaCollection:
 
 def deep_dict_update(dest: dict[Any, Any], src: dict[Any, Any]) -> dict[Any, Any]:
     for k, v in src.items():
-        if isinstance(v, dict):
+        if isinstance(v, dict) and isinstance(dest.get(k, {}), dict):
             dest[k] = deep_dict_update(dest.get(k, {}), v)
         else:
             dest[k] = v
